@@ -9,7 +9,8 @@ INF_NEG = ["(0-2147483648)", "(0-4611686018427387904)", "(0-9223372036854775807-
 ASCII = "abcdefgh"
 MULTI = "aé漢\U0001F600ßzÿあ"
 BOUND = "~\x7f\x80\xff\u0100\u07ff\u0800\U00010000"      # code points at the edges of the ASCII / 2- / 3- / 4-byte ranges (DEL among them)
-CHARS = {"ascii": ASCII, "multi": MULTI, "bound": BOUND}
+SPECIAL = "\ufffda\ufffd\u0301é\ufffd\ufffdz"          # the replacement character itself (decoders return it for "no character here") and a combining mark: characters of the string like any other
+CHARS = {"ascii": ASCII, "multi": MULTI, "bound": BOUND, "special": SPECIAL}
 
 
 def goquote(s):
@@ -152,7 +153,7 @@ def run():
     for ci, case in enumerate(cases):
         infs = [v for v in (case["a"], case["b"], case["c"]) if v in (PINF, NINF)]
         built = ("arr:rangeA", "arr:concat", "arr:json", "ascii:join", "multi:join", "ascii:lc", "arr:new", "arr:child", "ascii:new", "multi:child")
-        for kind in ("arr", "arrnil", "arrzero", "ascii", "multi", "bound") + ((built[ci % len(built)],) if not thorough else built):
+        for kind in ("arr", "arrnil", "arrzero", "ascii", "multi", "bound", "special") + ((built[ci % len(built)],) if not thorough else built):
             for j in (range(3) if infs else range(1)):
                 form = 0
                 h = (ci * 7 + j) % 40
@@ -200,7 +201,7 @@ def run():
     ck.cov["exhaustive"] = True
     ck.cov["rule"] = (f"TLC enumerates every (n,start,stop,step) with n in 0..{maxn}, bounds in -n-2..n+2 plus nil, +inf, -inf "
                       "(inf instantiated as 2^31, 2^62, 2^63-1 / negatives) and every single index; each is replayed on an array of ints, an array with nil elements, "
-                      "an array of zero values, an ASCII string and two multi-byte strings, and on the same values produced by built-ins (range.A, +, JSON.dec, join, lc); non-trivial = non-empty selection with an omitted, out-of-range or huge bound")
+                      "an array of zero values, an ASCII string and three multi-byte strings (one made of U+FFFD and a combining mark), and on the same values produced by built-ins (range.A, +, JSON.dec, join, lc); non-trivial = non-empty selection with an omitted, out-of-range or huge bound")
     ck.assumptions = ["the worker's canonical rendering of arrays/strings is faithful (checked by pv selftest)",
                       "2^31/2^62/2^63-1 stand for every bound beyond the window"]
     if not nontrivial:
